@@ -30,6 +30,7 @@ from typing import (
     ClassVar,
     Coroutine,
     Dict,
+    Generator,
     Iterable,
     List,
     Literal,
@@ -75,6 +76,13 @@ _T = TypeVar("_T")
 _Ts = TypeVarTuple("_Ts")
 
 log = logging.getLogger(__name__)
+
+
+class _FirstStep:
+    """Awaitable that suspends the awaiting coroutine exactly once."""
+
+    def __await__(self) -> Generator[None, None, None]:
+        yield
 
 
 class BaseTaskPool:
@@ -355,6 +363,12 @@ class BaseTaskPool:
         """
         log.info("Started %s", self._task_name(task_id))
         try:
+            # A task can be cancelled before it takes its first step, in which
+            # case a coroutine that has not been started yet would never get to
+            # run at all. `_start_task` advances this wrapper up to here, i.e.
+            # _into_ the `try` block, before handing it to the event loop;
+            # this way the bookkeeping/callbacks below happen no matter what.
+            await _FirstStep()
             return await awaitable
         except CancelledError:
             await self._task_cancellation(
@@ -362,6 +376,8 @@ class BaseTaskPool:
             )
             return None
         finally:
+            # No-op, unless the `awaitable` never started (see above):
+            getattr(awaitable, "close", lambda: None)()
             await self._task_ending(task_id, custom_callback=end_callback)
 
     async def _start_task(
@@ -416,10 +432,13 @@ class BaseTaskPool:
             task_id = self._num_started
             self._num_started += 1
             group_reg.add(task_id)
+            wrapper = self._task_wrapper(
+                awaitable, task_id, end_callback, cancel_callback
+            )
+            # Advance the wrapper into its `try` block (see `_task_wrapper`):
+            wrapper.send(None)
             self._tasks_running[task_id] = create_task(
-                coro=self._task_wrapper(
-                    awaitable, task_id, end_callback, cancel_callback
-                ),
+                coro=wrapper,
                 name=self._task_name(task_id),
             )
         return task_id
